@@ -152,29 +152,21 @@ def judge(ctx, eng, text, label, ident, opts, placed=None):
                 groups.setdefault((owner, name), []).append(ctext)
         for (owner, name), grp in groups.items():
             res.count("placed_above_checked")
-            res.seen("placement-kinds", "above:" + name)
-            # locate the group's lines in the output
-            lines = []
-            ok = True
-            for g in grp:
-                first = g.split("\n")[0].strip()
-                cand = [st for st in outc if st.comment is not None and st.comment.text.strip() == g and not st.tokens]
-                if not cand:
-                    ok = False
-                    break
-                lines.append(cand[0])
-            if not ok:
-                res.violation("comment-above-opener-lost-or-moved", case_o, grp, f"directly above the {name.upper()} opener")
-                continue
-            idxs = [line_index[st.lineno] for st in lines]
-            if idxs != list(range(idxs[0], idxs[0] + len(idxs))):
-                res.violation("comments-above-opener-not-contiguous", case_o, grp, None)
-                continue
-            nxt = outc[idxs[-1] + 1] if idxs[-1] + 1 < len(outc) else None
-            # further comment-only lines of other owners may not intervene: the next statement must be the opener
-            if nxt is None or not nxt.tokens or nxt.tokens[0].kind != "word" or nxt.tokens[0].text.upper() != name.upper():
-                res.violation("comment-not-directly-above-its-block", case_o,
-                              {"comments": grp, "next_line": nxt.raw[:200] if nxt else None}, f"{name.upper()} opener")
+            res.seen("placement-kinds", "above:" + name + (":banner" if len(set(grp)) < len(grp) else ""))
+            # the group's comment lines, in order, must sit directly above an opener of that type (texts may repeat: banner lines)
+            texts = [g.strip() for g in grp]
+            found = False
+            for i in range(len(outc) - len(texts)):
+                window = outc[i:i + len(texts)]
+                if all(st.comment is not None and not st.tokens and st.comment.text.strip() == t for st, t in zip(window, texts)):
+                    nxt = outc[i + len(texts)]
+                    if nxt.tokens and nxt.tokens[0].kind == "word" and nxt.tokens[0].text.upper() == name.upper():
+                        found = True
+                        break
+            if not found:
+                present = [t for t in texts if any(st.comment is not None and st.comment.text.strip() == t for st in outc)]
+                res.violation("comments-not-directly-above-their-block", case_o, {"comments": texts, "still_somewhere_in_output": present},
+                              f"{len(texts)} comment line(s) directly above the {name.upper()} opener")
 
 
 def run(ctx):
